@@ -618,10 +618,21 @@ def _chunked_test(ctx, P):
         ("only a non-core dim chunked", {dx: (Lin.sym("c0"),), dy: (Lin.sym("d0"), Lin.sym("d1"))}, [dx], False),
         ("size-1 chunks", {dx: (1, 1, 1), dy: (Lin.sym("d0"),)}, [dx], True),
     ]
-    for name, chunks, core, want in cases:
+    def inconsistent(ev, o, n):
+        from ..absint import Raised
+
+        raise Raised("ValueError", n, "Object has inconsistent chunks along dimension: a lazy coordinate is chunked differently from the data")
+
+    cases2 = [(nm, ch, co, w, False) for nm, ch, co, w in cases]
+    # the same array carrying a lazy non-index coordinate that is chunked differently: DataArray.chunksizes (which spans the
+    # coordinates, unlike .variable.chunksizes / .chunks) raises for it - the data's own chunking must decide
+    cases2.append(("two chunks along the core dim, a lazy coordinate chunked differently", {dx: (Lin.sym("c0"), Lin.sym("c1")), dy: (Lin.sym("d0"),)}, [dx], True, True))
+    cases2.append(("one chunk along the core dim, a lazy coordinate chunked differently", {dx: (Lin.sym("c0"),), dy: (Lin.sym("d0"),)}, [dx], False, True))
+    for name, chunks, core, want, odd_coord in cases2:
         am = dict(da_attr_models())
         am[("DataArray", "chunks")] = (lambda ev, o, n, chunks=chunks: None if chunks is None else tuple(chunks.values()))
-        am[("DataArray", "variable")] = (lambda ev, o, n, chunks=chunks: Obj("Variable", "variable", (), {"chunksizes": dict(chunks or {})}))
+        am[("DataArray", "variable")] = (lambda ev, o, n, chunks=chunks: Obj("Variable", "variable", (), {"chunksizes": dict(chunks or {}), "chunks": None if chunks is None else tuple(chunks.values())}))
+        am[("DataArray", "chunksizes")] = inconsistent if odd_coord else (lambda ev, o, n, chunks=chunks: dict(chunks or {}))
         ev = Evaluator(P, attr_models=am)
         try:
             outs = ev.run_paths(fi, lambda: dict(obj=make_da("da", [Sym("t"), dx, dy]), core_dims=list(core)))
